@@ -19,6 +19,8 @@
 (*          items reachable from eventSnapshot.First                          *)
 (*   cl     sequence of clients, one record each:                             *)
 (*          state  "none" | "open" | "acl" | "force" | "unsub" (Subscription)  *)
+(*          live   Subscribe was called and Unsubscribe not yet: the          *)
+(*                 subscription holds a reference on its topic buffer         *)
 (*          topic, subj, tok   the SubscribeRequest                           *)
 (*          pend   items reachable from Subscription.currentItem, i.e. what   *)
 (*                 successive Next calls return before blocking.  Linked      *)
@@ -38,11 +40,11 @@
 (* (newSnapshotToFollow); an event is [topic, subj, op, id, v] with op "reg"  *)
 (* (register / upsert of id with content v) or "dereg" (deregister / delete). *)
 (*                                                                           *)
-(* Operators that exist in two variants take a boolean g:                     *)
-(*   g = FALSE  what the code at hand does                                    *)
-(*   g = TRUE   the property-conforming behaviour (see GAP and RESTORE below) *)
-(* StreamMC checks the properties for g = TRUE; StreamTrace accepts a step    *)
-(* that matches either variant and judges the properties on recorded data.    *)
+(* Operators that exist in two variants take a record g = [gap, restore] of   *)
+(* booleans:  FALSE = what the code at hand does ;  TRUE = the property-       *)
+(* conforming behaviour (see GAP and RESTORE below).  StreamMC checks the      *)
+(* properties for g = Conforming; StreamTrace accepts a step that matches any  *)
+(* variant and judges the properties on the recorded data.                     *)
 (***************************************************************************)
 EXTENDS Integers, Sequences, FiniteSets, SequencesExt, TLC
 
@@ -51,7 +53,7 @@ NoItem == [k |-> "none", idx |-> 0, evs |-> <<>>]
 Item(k, i, evs) == [k |-> k, idx |-> i, evs |-> evs]
 Same(a, b) == a.topic = b.topic /\ a.subj = b.subj
 
-NoClient == [state |-> "none", topic |-> "", subj |-> "", tok |-> "", pend |-> <<>>, snapidx |-> 0, ridx |-> 0,
+NoClient == [state |-> "none", live |-> FALSE, topic |-> "", subj |-> "", tok |-> "", pend |-> <<>>, snapidx |-> 0, ridx |-> 0,
              view |-> {}, vidx |-> 0, mode |-> "snap", acc |-> <<>>]
 
 ---------------------------------------------------------------------------
@@ -83,7 +85,7 @@ DrainOp(s) ==
   IF s.queue = <<>> THEN s ELSE
   LET b == Head(s.queue)
       app(p, t) == IF Sel(s, t, b) = <<>> THEN p ELSE Append(p, Item("ev", b.idx, Sel(s, t, b)))
-      linked(x) == x.state \in {"open", "acl", "force"}      \* holds a reference: the buffer exists
+      linked(x) == x.live                                   \* holds a reference: the buffer exists
   IN [s EXCEPT
         !.queue = Tail(@),
         !.tbs = {[t EXCEPT !.last = IF Sel(s, t, b) = <<>> THEN @ ELSE Item("ev", b.idx, Sel(s, t, b))] : t \in @},
@@ -120,8 +122,8 @@ SubscribeOp(s, c, topic, subj, tok, from, q) ==
       pend == IF resume THEN <<>> ELSE IF from = 0 THEN body ELSE <<Item("nstf", 0, <<>>)>> \o body
       x == s.cl[c]
       y == IF from = 0
-           THEN [NoClient EXCEPT !.state = "open", !.topic = topic, !.subj = subj, !.tok = tok, !.pend = pend, !.ridx = s.ridx]
-           ELSE [x EXCEPT !.state = "open", !.topic = topic, !.subj = subj, !.tok = tok, !.pend = pend, !.ridx = s.ridx,
+           THEN [NoClient EXCEPT !.state = "open", !.live = TRUE, !.topic = topic, !.subj = subj, !.tok = tok, !.pend = pend, !.ridx = s.ridx]
+           ELSE [x EXCEPT !.state = "open", !.live = TRUE, !.topic = topic, !.subj = subj, !.tok = tok, !.pend = pend, !.ridx = s.ridx,
                           !.snapidx = 0, !.mode = "resume", !.acc = <<>>]
   IN [s EXCEPT
         !.tbs = (@ \ {tb}) \cup {[tb EXCEPT !.refs = @ + 1]},
@@ -135,10 +137,14 @@ SubscribeOp(s, c, topic, subj, tok, from, q) ==
    idempotent and is what makes the rule safe when two transactions share a raft index).
    RESTORE.  A batch of a store that has since been replaced (index <= ridx) is likewise not
    delivered to a subscription started after the restore. *)
-Stale(x, it) == it.k = "ev" /\ x.snapidx > 0 /\ (it.idx < x.snapidx \/ it.idx <= x.ridx)
+Conforming == [gap |-> TRUE, restore |-> TRUE]
+AsIs == [gap |-> FALSE, restore |-> FALSE]
+Variants == [gap : BOOLEAN, restore : BOOLEAN]
 
-RECURSIVE DropStale(_, _)
-DropStale(x, p) == IF p # <<>> /\ Stale(x, Head(p)) THEN DropStale(x, Tail(p)) ELSE p
+Stale(x, it, g) == it.k = "ev" /\ x.snapidx > 0 /\ ((g.gap /\ it.idx < x.snapidx) \/ (g.restore /\ it.idx <= x.ridx))
+
+RECURSIVE DropStale(_, _, _)
+DropStale(x, p, g) == IF p # <<>> /\ Stale(x, Head(p), g) THEN DropStale(x, Tail(p), g) ELSE p
 
 (* submatview/handler.go (snapshotHandler.handle, eventStreamHandler, resumeStreamHandler) and
    materializer.go updateView (`m.index = index`, unconditionally) / reset *)
@@ -153,16 +159,16 @@ Deliver(x, it) ==
 (* subscription.go Next (one call) followed by the materializer's handler for the returned event.
    Apply is local to the subscriber and commutes with every other action, so Next+Apply is one step.
    A subscription that is not open returns its close error and never data (requireStateOpen is
-   checked first).  g = TRUE: stale items are passed over inside the call (GAP / RESTORE). *)
+   checked first).  g: stale items are passed over inside the call (GAP / RESTORE). *)
 NextOp(s, c, g) ==
   LET x == s.cl[c] IN
   IF x.state # "open" THEN [st |-> s, res |-> [k |-> "closed", why |-> x.state, item |-> NoItem]]
-  ELSE LET p == IF g THEN DropStale(x, x.pend) ELSE x.pend IN
+  ELSE LET p == DropStale(x, x.pend, g) IN
        IF p = <<>> THEN [st |-> [s EXCEPT !.cl[c].pend = <<>>], res |-> [k |-> "blocked", why |-> "", item |-> NoItem]]
        ELSE [st |-> [s EXCEPT !.cl[c] = Deliver([x EXCEPT !.pend = Tail(p)], Head(p))],
              res |-> [k |-> "data", why |-> "", item |-> Head(p)]]
 
-(* subscription.go Unsubscribe + the freeBuf closure of EventPublisher.Subscribe: drop the reference;
+(* subscription.go Unsubscribe (state changes only if still open) + the freeBuf closure of EventPublisher.Subscribe: drop the reference;
    at zero delete the topic buffer and the cached snapshot spliced onto it *)
 UnsubOp(s, c) ==
   LET x == s.cl[c]
@@ -171,30 +177,34 @@ UnsubOp(s, c) ==
   IN [s EXCEPT
         !.tbs = IF lastref THEN @ \ {tb} ELSE (@ \ {tb}) \cup {[tb EXCEPT !.refs = @ - 1]},
         !.cache = IF lastref THEN {e \in @ : ~Same(e, x)} ELSE @,
-        !.cl[c] = [x EXCEPT !.state = "unsub", !.pend = <<>>]]
+        !.cl[c] = [x EXCEPT !.state = IF @ = "open" THEN "unsub" ELSE @, !.live = FALSE, !.pend = <<>>]]
 
 (* the time.AfterFunc closure of setCachedSnapshotLocked *)
 ExpireOp(s, topic, subj) == [s EXCEPT !.cache = {e \in @ : ~(e.topic = topic /\ e.subj = subj)}]
 
 (* fsm.go Restore -> EventPublisher.RefreshAllTopics: evict every cached snapshot, force-close every
-   subscription.  Topic buffers and publishCh are left as they are (g = FALSE).
-   g = TRUE (RESTORE): what is queued or buffered belongs to the abandoned store and is discarded. *)
+   subscription.  Topic buffers and publishCh are left as they are (g.restore = FALSE).
+   g.restore = TRUE (RESTORE): what is queued or buffered belongs to the abandoned store and is discarded. *)
 RefreshOp(s, g) ==
   [s EXCEPT
      !.cache = {},
      !.cl = [c \in DOMAIN @ |-> [@[c] EXCEPT !.state = IF @ = "open" THEN "force" ELSE @]],
-     !.queue = IF g THEN <<>> ELSE @,
-     !.tbs = IF g THEN {[t EXCEPT !.last = NoItem] : t \in @} ELSE @]
+     !.queue = IF g.restore THEN <<>> ELSE @,
+     !.tbs = IF g.restore THEN {[t EXCEPT !.last = NoItem] : t \in @} ELSE @]
 
 ---------------------------------------------------------------------------
 (* The property (C11), stated over one client record x.  Rows(i) is the result of the equivalent
    direct query when the store was at raft index i ; cur is the direct query result now. *)
 
-\* the view was produced by a delivery (or kept for a resume): it claims to be the state at x.vidx
-Claims(x) == x.mode = "stream" \/ (x.mode = "resume" /\ x.vidx > 0)
+\* the view was produced by a delivery, or was kept and the server agreed to resume from its index
+\* (no newSnapshotToFollow is waiting to reset it): it claims to be the state at x.vidx
+Claims(x) == \/ x.mode = "stream"
+             \/ x.mode = "resume" /\ x.vidx > 0 /\ x.state = "open" /\ (x.pend = <<>> \/ Head(x.pend).k # "nstf")
 
-\* ViewExact: what the subscriber holds is exactly the direct query result at the delivered index
-ViewExact(x, rowsAtVidx) == Claims(x) => x.view = rowsAtVidx
+\* ViewExact: what the subscriber holds is exactly a direct query result at the delivered index
+\* (atVidx = the set of results a direct query can have returned at index x.vidx; one element unless
+\* the store changed the result without moving the query's index)
+ViewExact(x, atVidx) == Claims(x) => x.view \in atVidx
 
 \* IdxMonotone: a delivery that updates the view never carries an index below what this subscription
 \* has already shown (the previous index and the snapshot index); nstf resets (resubscription).
